@@ -305,7 +305,8 @@ func deepShapes(p *prng, n int, st *stats, oracle func(string, ...any)) {
 		var inS, inShape strings.Builder
 		collect(reflect.ValueOf(payload), &inS, &inShape)
 		before, _ := json.Marshal(payload)
-		e := &eventlogger.Event{Type: "t", Payload: payload, Formatted: map[string][]byte{}}
+		// the event reaches the filter already formatted (a formatter before it, another pipeline)
+		e := &eventlogger.Event{Type: "t", Payload: payload, Formatted: map[string][]byte{"pre": []byte("abc")}}
 		got, err := func() (g *eventlogger.Event, er error) {
 			defer func() {
 				if r := recover(); r != nil {
@@ -337,6 +338,17 @@ func deepShapes(p *prng, n int, st *stats, oracle func(string, ...any)) {
 		if got == nil {
 			once("C09", kind, "nothing forwarded and no error")
 			continue
+		}
+		if got != e {
+			// the forwarded event is a private copy: what later nodes do to it does not reach the input event
+			got.FormattedAs("probe", []byte("x"))
+			if b, ok := got.Format("pre"); ok && len(b) > 0 {
+				b[0] = 'X'
+			}
+			_, hasProbe := e.Formatted["probe"]
+			if hasProbe || string(e.Formatted["pre"]) != "abc" {
+				once("C10", kind, "the forwarded event shares its format table (or the bytes in it) with the event it was given")
+			}
 		}
 		var outS, outShape strings.Builder
 		collect(reflect.ValueOf(got.Payload), &outS, &outShape)
